@@ -17,7 +17,7 @@ def pin_case(draw):
     degree = draw(st.sampled_from([4, 4, 5, 6, 7, 8]))
     solver = draw(st.sampled_from(['eco', 'grb']))
     if name == 'expcone':
-        z = draw(st.sampled_from([0.5, 1.0, 2.0]))
+        z = draw(st.sampled_from([0.5, 1.0, 2.0, 8.0, 20.0]))       # large scales: the cut-off rows are relative to z
         e = draw(st.sampled_from(GRID))
         return {'mode': 'pin', 'atom': 'expcone', 'z': z, 'x': e * z, 'degree': degree, 'solver': solver,
                 'pos': draw(st.integers(0, 2)), 'front': draw(st.sampled_from(['ro', 'dro']))}
@@ -30,7 +30,7 @@ def pin_case(draw):
         u = [float(np.exp(e)) if name != 'entropy' else float(np.exp(-abs(e))) for e in expo]
     else:
         u = list(expo)
-    scale = draw(st.sampled_from([0.5, 1.0, 2.0])) if name in ('pexp', 'plog') else None
+    scale = draw(st.sampled_from([0.5, 1.0, 2.0, 8.0, 20.0])) if name in ('pexp', 'plog') else None
     if name == 'pexp':
         u = [e * scale for e in expo]
     if name == 'plog':
@@ -45,6 +45,7 @@ def model_case(draw):
                                bounded_by='box', max_atoms=3, obj_atom_prob=0.3, cones=['expcone', 'kldiv', 'rsocone'],
                                int_ok=draw(st.integers(0, 5)) == 0))
     c['mode'] = 'model'
+    c['hist'] = draw(st.booleans())        # soc_solve, then st(a cut through the solution), then soc_solve again
     c['degree'] = draw(st.sampled_from([4, 4, 5, 6, 8]))
     c['solver'] = draw(st.sampled_from(['eco', 'grb']))
     return c
@@ -184,7 +185,7 @@ class C18(Prop):
             'columns: exact optimum by ECOS on the exp-cone program vs soc_solve, compared when every cone of the exact solution has '
             '|x/z| <= 4; relative error must be <= 1e-3 (+solver tolerance) at every degree >= 4. In both families to_socp() must '
             'leave rows, senses, constants, bounds, types and objective of the original program as an unchanged prefix, and solve() '
-            'after soc_solve() must still return the exact optimum. Non-trivial = |exponent| > 2 or the cone is not the only '
+            'after soc_solve() must still return the exact optimum; in half of the generated models a cut through the solution is added after soc_solve() and the next soc_solve() must agree with a fresh build. Non-trivial = |exponent| > 2 or the cone is not the only '
             'constraint; distinct by IR hash.')
     assumptions = ['exact reference = closed form (pin) or ECOS exp-cone optimum (model); comparison skipped when a solver fails',
                    'relative error budget 1e-3 + 2e-4 solver tolerance (observed at degree 4: about 1.7e-4)',
@@ -287,6 +288,35 @@ class C18(Prop):
             return Outcome.skip('soc_not_solved', labels)
         approx = m.get()
         approx_obj = float(sol2.objval)
+        if case.get('hist'):
+            # history: a constraint added after soc_solve() must be seen by the next soc_solve()
+            xs2 = np.array(detmodel.get_x(case, pieces), dtype=float)
+            wit = np.array(case['witness'], dtype=float)
+            d_ = xs2 - wit
+            if np.linalg.norm(d_) > 1e-2:
+                rhs = float(d_ @ (xs2 + wit) / 2)
+                vals = []
+                for fresh in (False, True):
+                    if fresh:
+                        mm, xx, pp = detmodel.build(case)
+                        detmodel.declare(case, mm, xx, pp)
+                    else:
+                        mm, xx = m, x
+                    mm.st(d_ @ xx <= rhs)
+                    try:
+                        with quiet():
+                            mm.soc_solve(solver, degree=deg, display=False, params=solver_params(case))
+                    except Exception as ex:
+                        if 'size-limited' in str(ex):
+                            return Outcome.skip('gurobi_size_limit', labels)
+                        raise
+                    sh = mm.solution
+                    vals.append(None if sh is None or sh.x is None or np.isnan(sh.objval) or 'lose' in str(sh.status) else mm.get())
+                labels.append('history')
+                if vals[0] is not None and vals[1] is not None and abs(vals[0] - vals[1]) > 2e-4 * (1 + abs(vals[1])):
+                    return Outcome.fail('soc_solve_history', 'soc_solve() after st() of a new constraint gives %.9g, a fresh model with the same '
+                                        'constraints gives %.9g (before the constraint: %.9g)' % (vals[0], vals[1], approx), labels)
+                return Outcome.ok(True, labels)
         with quiet():
             m.solve(eco_solver, display=False)
         again = m.get() if m.solution is not None and m.solution.x is not None and not np.isnan(m.solution.objval) else None
